@@ -220,6 +220,18 @@ def run_case(ns, ctx, case):
                 viol.append(V(sigbase + ":wrong-gradient", f"operand gradient differs from the finite-difference VJP (worst rel {worst:.3g})",
                               operand=i, index=first, got=got.tolist() if got.size <= 64 else None,
                               want=np.where(np.isnan(want), None, want).tolist() if want.size <= 64 else None))
+    if not viol and not case.get("tie"):
+        first = [None if (not r or ts[i].grad is None) else np.array(ts[i].grad.data, dtype=np.float64) for i, r in enumerate(req)]
+        try:
+            for i in use:
+                outs[i].backward(ns.Tensor(gs[i]))
+            counters["second_backward_checks"] = 1
+            for i, f_ in enumerate(first):
+                if f_ is not None and not np.allclose(np.asarray(ts[i].grad.data, dtype=np.float64), 2 * f_, rtol=1e-9, atol=1e-9 * max(1.0, float(np.max(np.abs(f_))) if f_.size else 1.0)):
+                    viol.append(V(sigbase + ":second-backward-not-double", "after a second backward over the same op an operand gradient is not twice the first", operand=i))
+                    break
+        except Exception as e:
+            viol.append(V(sigbase + ":second-backward-raises", f"a second backward over the same op raised {type(e).__name__}", error=str(e)[:200]))
     mviol = []
     for v in mon.drain():
         if v["sig"].startswith("grad-dtype:") or v["sig"].startswith("release:"):
